@@ -429,6 +429,15 @@ Section Stream.
       unfold delivered_all in *. cbn [map concat]. rewrite D2, D. reflexivity.
   Qed.
 
+  Lemma sealed_concat_length k n cs : Forall okchunk cs ->
+    length (concat (sealed_seq k n cs)) = length cs * S_.
+  Proof.
+    revert n; induction cs as [|c cs IH]; intros n F; [reflexivity|].
+    inversion F as [|? ? [H1 H2] F']; subst.
+    cbn [sealed_seq concat length]. rewrite app_length, IH by assumption.
+    rewrite seal_len, mk_frame_length by lia. unfold sealed_frame_size. lia.
+  Qed.
+
   (* ---- tampering ----------------------------------------------------------------- *)
   Hypothesis open_auth : forall k n c m, open k n c = Some m -> c = seal k n m.
 
@@ -536,14 +545,6 @@ Section Stream.
     intros H Hm m E. apply (seal_dist k n m0 m). rewrite <- E. apply xor_at_one_apart; assumption.
   Qed.
 
-  Lemma sealed_concat_length k n cs : Forall okchunk cs ->
-    length (concat (sealed_seq k n cs)) = length cs * S_.
-  Proof.
-    revert n; induction cs as [|c cs IH]; intros n F; [reflexivity|].
-    inversion F as [|? ? [H1 H2] F']; subst.
-    cbn [sealed_seq concat length]. rewrite app_length, IH by assumption.
-    rewrite seal_len, mk_frame_length by lia. unfold sealed_frame_size. lia.
-  Qed.
 
   (* the property statement for one flipped byte anywhere in flight *)
   Lemma tamper_flip sizes c pre ch post off mask :
